@@ -395,6 +395,630 @@ def selection(repo):
     return out
 
 
+# ---------------------------------------------------------------------------- bookkeeping arithmetic
+# The scalar statements of the three CTR files as expression trees (Crypto/AesCtrArith.v gives them
+# their C meaning).  Nothing here evaluates anything: spelling -> tree.
+
+CTYPES = {
+    "size_t": "U64", "uint64_t": "U64", "uintptr_t": "U64", "unsigned long": "U64", "unsigned long long": "U64",
+    "unsigned long int": "U64", "long unsigned int": "U64",
+    "uint32_t": "U32", "unsigned": "U32", "unsigned int": "U32",
+    "uint16_t": "U16", "unsigned short": "U16", "uint8_t": "U8", "unsigned char": "U8",
+    "int64_t": "S64", "ssize_t": "S64", "long": "S64", "long long": "S64", "long int": "S64", "ptrdiff_t": "S64",
+    "int32_t": "S32", "int": "S32", "int16_t": "S16", "short": "S16", "int8_t": "S8", "signed char": "S8",
+}
+TYPE_WORDS = set(w for t in CTYPES for w in t.split())
+V_BYTECTR, V_BUFLEN, V_INOFF, V_OUTOFF, V_NBYTES, V_BYTEMOD, V_PBLKB, V_LOCAL0 = 1, 2, 3, 4, 5, 6, 7, 16
+
+TOKEN = re.compile(r"\s*(0[xX][0-9a-fA-F]+[uUlL]*|\d+[uUlL]*|[A-Za-z_]\w*|->|<<=|>>=|<<|>>|<=|>=|==|!=|&&|\|\||"
+                   r"\+\+|--|[-+*/%&|^]=|[-+*/%&|^~!<>()\[\]=?:,.])")
+BINOPS = {"*": (10, "OMul"), "/": (10, "ODiv"), "%": (10, "OMod"), "+": (9, "OAdd"), "-": (9, "OSub"),
+          "<<": (8, "OShl"), ">>": (8, "OShr"), "<": (7, "OLt"), "<=": (7, "OLe"), ">": (7, "OGt"), ">=": (7, "OGe"),
+          "==": (6, "OEq"), "!=": (6, "ONe"), "&": (5, "OAnd"), "^": (4, "OXor"), "|": (3, "OOr")}
+ASSIGN_OPS = {"=": None, "+=": "OAdd", "-=": "OSub", "*=": "OMul", "/=": "ODiv", "%=": "OMod", "&=": "OAnd",
+              "|=": "OOr", "^=": "OXor", "<<=": "OShl", ">>=": "OShr"}
+
+
+def tokens(text):
+    out, i = [], 0
+    text = text.strip()
+    while i < len(text):
+        m = TOKEN.match(text, i)
+        if not m:
+            return None
+        out.append(m.group(1))
+        i = m.end()
+    return out
+
+
+def literal(tok):
+    """C11 6.4.4.1 on LP64: (type, value) of an integer literal as spelled."""
+    m = re.fullmatch(r"(0[xX][0-9a-fA-F]+|\d+)([uUlL]*)", tok)
+    body, suf = m.group(1), m.group(2).lower()
+    v = int(body, 0) if not (len(body) > 1 and body[0] == "0" and body[1] not in "xX") else int(body, 8)
+    dec = not (body[0] == "0" and len(body) > 1)
+    u, nl = "u" in suf, suf.count("l")
+    if u and nl == 0:
+        cands = ["U32", "U64"]
+    elif u:
+        cands = ["U64"]
+    elif nl and dec:
+        cands = ["S64"]
+    elif nl:
+        cands = ["S64", "U64"]
+    elif dec:
+        cands = ["S32", "S64"]
+    else:
+        cands = ["S32", "U32", "S64", "U64"]
+    lim = {"S32": 1 << 31, "U32": 1 << 32, "S64": 1 << 63, "U64": 1 << 64}
+    for c in cands:
+        if v < lim[c]:
+            return c, v
+    return None
+
+
+class ExprParser:
+    """vars: C lvalue spelling (no white space) -> variable number; pblk: (spelling of stream->pblk, K)"""
+
+    def __init__(self, toks, vars, pblk=None):
+        self.t, self.i, self.vars, self.pblk = toks, 0, vars, pblk
+        self.bad = False
+
+    def peek(self, k=0):
+        return self.t[self.i + k] if self.i + k < len(self.t) else None
+
+    def take(self):
+        self.i += 1
+        return self.t[self.i - 1]
+
+    def unknown(self):
+        self.bad = True
+        return "EUnknown"
+
+    def type_at(self, i):
+        """a type name in parentheses starting at token i ('(' already seen)? -> (ctype, index after ')')"""
+        j, words = i, []
+        while j < len(self.t) and self.t[j] in TYPE_WORDS | {"const"}:
+            if self.t[j] != "const":
+                words.append(self.t[j])
+            j += 1
+        if words and j < len(self.t) and self.t[j] == ")" and " ".join(words) in CTYPES:
+            return CTYPES[" ".join(words)], j + 1
+        return None
+
+    def lvalue(self):
+        """[*] name [-> field] [ [expr] ]  ->  variable reference or None (position restored)"""
+        save, text = self.i, ""
+        if self.peek() == "*":
+            text += self.take()
+        if self.peek() == "(" and text == "":
+            return None
+        if not (self.peek() and re.fullmatch(r"[A-Za-z_]\w*", self.peek())):
+            self.i = save
+            return None
+        text += self.take()
+        while self.peek() in ("->", "."):
+            text += self.take()
+            text += self.take() or ""
+        if self.peek() == "[":
+            if self.pblk and text == self.pblk[0] and self.peek(2) == "]" and self.peek(1) and \
+                    re.fullmatch(r"\d+|0[xX][0-9a-fA-F]+", self.peek(1)) and int(self.peek(1), 0) == self.pblk[1]:
+                self.i += 3
+                return "(EVar %d%%N)" % V_PBLKB
+            self.i = save
+            return None
+        if text in self.vars:
+            return "(EVar %d%%N)" % self.vars[text]
+        self.i = save
+        return None
+
+    def unary(self):
+        t = self.peek()
+        if t is None:
+            return self.unknown()
+        if t == "(":
+            ty = self.type_at(self.i + 1)
+            if ty:
+                self.i = ty[1]
+                return "(ECast %s %s)" % (ty[0], self.unary())
+            self.take()
+            # (*name) is an lvalue in parentheses
+            e = self.expr(0)
+            if self.peek() != ")":
+                return self.unknown()
+            self.take()
+            return e
+        if t in ("~", "-", "!"):
+            self.take()
+            return "(EUn %s %s)" % ({"~": "UNot", "-": "UNeg", "!": "ULnot"}[t], self.unary())
+        if t == "+":
+            self.take()
+            return self.unary()
+        if re.fullmatch(r"(0[xX][0-9a-fA-F]+|\d+)[uUlL]*", t):
+            self.take()
+            lt = literal(t)
+            if not lt:
+                return self.unknown()
+            return "(ELit %s %d (* %s *))" % (lt[0], lt[1], t)
+        lv = self.lvalue()
+        if lv:
+            return lv
+        self.take()
+        return self.unknown()
+
+    def expr(self, minprec):
+        left = self.unary()
+        while self.peek() in BINOPS and BINOPS[self.peek()][0] >= minprec:
+            prec, name = BINOPS[self.take()]
+            right = self.expr(prec + 1)
+            left = "(EBin %s %s %s)" % (name, left, right)
+        return left
+
+
+def parse_expr(text, vars, pblk=None):
+    toks = tokens(text)
+    if not toks:
+        return "EUnknown"
+    p = ExprParser(toks, vars, pblk)
+    e = p.expr(0)
+    if p.i != len(toks) or p.bad:
+        return "EUnknown"
+    return e
+
+
+def parse_lvalue(text, vars, pblk=None):
+    toks = tokens(text)
+    if not toks:
+        return None
+    while len(toks) >= 2 and toks[0] == "(" and toks[-1] == ")":
+        toks = toks[1:-1]
+    p = ExprParser(toks, vars, pblk)
+    lv = p.lvalue()
+    if lv is None or p.i != len(toks):
+        return None
+    return int(re.search(r"\d+", lv).group(0))
+
+
+def comment(text):
+    return "(* %s *)" % re.sub(r"\s+", " ", text).strip().replace("(*", "( *").replace("*)", "* )")
+
+
+def parse_stmt(text, vars, pblk=None, arr=None, pblk_name=None):
+    """one expression statement (no trailing ';') -> Coq cstmt"""
+    text = text.strip()
+    c = " " + comment(text)
+    m = re.fullmatch(r"(.+?)\s*(\+\+|--)", text, flags=re.S) or None
+    pre = re.fullmatch(r"(\+\+|--)\s*(.+)", text, flags=re.S)
+    if m or pre:
+        lvt, op = (m.group(1), m.group(2)) if m else (pre.group(2), pre.group(1))
+        lv = parse_lvalue(lvt, vars, pblk)
+        if lv is not None:
+            return "SAssign %d%%N (Some %s) (ELit S32 1)%s" % (lv, "OAdd" if op == "++" else "OSub", c)
+        return "SUnknown" + c
+    m = re.fullmatch(r"be64enc\s*\((.*)\)", text, flags=re.S)
+    if m:
+        a = top_level_args_ws(m.group(1))
+        if len(a) == 2:
+            dst = squeeze(a[0])
+            if arr and dst == arr:
+                return "SBe64 0%%N 0%%N %s%s" % (parse_expr(a[1], vars, pblk), c)
+            mm = re.fullmatch(r"(.+?)\+(\w+)", dst)
+            if pblk_name and mm and mm.group(1) == pblk_name and re.fullmatch(r"\d+", mm.group(2)):
+                return "SBe64 1%%N %d%%N %s%s" % (int(mm.group(2)), parse_expr(a[1], vars, pblk), c)
+        return "SUnknown" + c
+    m = re.fullmatch(r"memcpy\s*\((.*)\)", text, flags=re.S)
+    if m:
+        a = [squeeze(x) for x in top_level_args_ws(m.group(1))]
+        mm = re.fullmatch(r"(.+?)\+(\d+)", a[0]) if len(a) == 3 else None
+        if mm and pblk_name and mm.group(1) == pblk_name and arr and a[1] == arr and re.fullmatch(r"\d+", a[2]):
+            return "SMemcpy %d%%N %d%%N%s" % (int(mm.group(2)), int(a[2]), c)
+        return "SUnknown" + c
+    # assignment: the first top-level assignment operator
+    toks = tokens(text)
+    if toks:
+        depth = 0
+        for k, t in enumerate(toks):
+            if t in "([":
+                depth += 1
+            elif t in ")]":
+                depth -= 1
+            elif depth == 0 and t in ASSIGN_OPS:
+                # re-split the text at this operator occurrence
+                lhs = " ".join(toks[:k])
+                rhs = " ".join(toks[k + 1:])
+                lv = parse_lvalue(lhs, vars, pblk)
+                if lv is not None:
+                    op = ASSIGN_OPS[t]
+                    return "SAssign %d%%N %s %s%s" % (lv, "(Some %s)" % op if op else "None", parse_expr(rhs, vars, pblk), c)
+                break
+    if re.search(r"_mm_|__m128i|load_si64|crypto_aes_encrypt_block_aesni_m128i", text):
+        return "SVec" + c
+    return "SUnknown" + c
+
+
+def top_level_args_ws(text):
+    args, depth, cur = [], 0, ""
+    for ch in text:
+        if ch in "([{":
+            depth += 1
+        elif ch in ")]}":
+            depth -= 1
+        if ch == "," and depth == 0:
+            args.append(cur)
+            cur = ""
+        else:
+            cur += ch
+    args.append(cur)
+    return [a.strip() for a in args]
+
+
+# ---- a small statement parser: C block text -> nodes
+def parse_block(text):
+    """-> list of ('decl', text) | ('expr', text) | ('return', text) | ('if', cond, then, else)
+               | ('while', cond, body) | ('do', body, cond) | ('for', init, cond, step, body) | ('other', text)"""
+    out, i, n = [], 0, len(text)
+
+    def ws(i):
+        while i < n and text[i].isspace():
+            i += 1
+        return i
+
+    def stmt(i):
+        """parse one statement at i -> (node list, next index)"""
+        i = ws(i)
+        if i >= n:
+            return [], i
+        if text[i] == "{":
+            j = balanced(text, i, "{", "}")
+            return parse_block(text[i + 1:j - 1]), j
+        if text[i] == ";":
+            return [], i + 1
+        m = re.match(r"(if|while|for)\s*(?=\()", text[i:])
+        if m:
+            kw = m.group(1)
+            j = balanced(text, i + m.end())
+            head = text[i + m.end() + 1:j - 1]
+            body, k = stmt(j)
+            if kw == "if":
+                k2 = ws(k)
+                m2 = re.match(r"else\b", text[k2:])
+                if m2:
+                    els, k = stmt(k2 + m2.end())
+                else:
+                    els = []
+                return [("if", head, body, els)], k
+            if kw == "while":
+                return [("while", head, body)], k
+            parts = head.split(";")
+            if len(parts) != 3:
+                return [("other", text[i:k])], k
+            return [("for", parts[0].strip(), parts[1].strip(), parts[2].strip(), body)], k
+        m = re.match(r"do\b", text[i:])
+        if m:
+            body, k = stmt(i + m.end())
+            k = ws(k)
+            m2 = re.match(r"while\s*(?=\()", text[k:])
+            if not m2:
+                return [("other", text[i:k])], k
+            j = balanced(text, k + m2.end())
+            cond = text[k + m2.end() + 1:j - 1]
+            j = ws(j)
+            if j < n and text[j] == ";":
+                j += 1
+            return [("do", body, cond)], j
+        # simple statement up to the ';' at depth 0
+        depth, j = 0, i
+        while j < n and not (text[j] == ";" and depth == 0):
+            if text[j] in "([{":
+                depth += 1
+            elif text[j] in ")]}":
+                depth -= 1
+            j += 1
+        s = text[i:j].strip()
+        if re.match(r"return\b", s):
+            return [("return", s[6:].strip())], j + 1
+        if re.match(r"(?:const\s+|static\s+|volatile\s+)*(?:struct\s+\w+|__m128i|u?int\d+_t|size_t|ssize_t|unsigned|int|long|char|short)\b[\s\w*]*\b\w+\s*(?:\[[^\]]*\])?\s*(?:=.*)?$", s, flags=re.S) \
+                and not re.match(r"\w+\s*(?:[-+*/%&|^]|<<|>>)?=", s):
+            return [("decl", s)], j + 1
+        return [("expr", s)], j + 1
+
+    while True:
+        i = ws(i)
+        if i >= n:
+            return out
+        nodes, i = stmt(i)
+        out += nodes
+
+
+def func_sig(src, name):
+    """parameter list of the definition of `name`: [(type text, number of '*', name)]"""
+    for m in re.finditer(r"^%s\s*(?=\()" % re.escape(name), src, flags=re.M):
+        j = balanced(src, m.end())
+        if not re.match(r"\s*\{", src[j:]):
+            continue
+        out = []
+        for p in top_level_args_ws(src[m.end() + 1:j - 1]):
+            mm = re.fullmatch(r"(.*?)([\s*]+)(\w+)", p.strip(), flags=re.S)
+            if not mm:
+                raise NotFound("parameter '%s' of %s" % (p, name))
+            ty = re.sub(r"\bconst\b", " ", mm.group(1))
+            out.append((" ".join(ty.split()), mm.group(2).count("*"), mm.group(3)))
+        return out
+    raise NotFound("definition of " + name)
+
+
+def ctype_of(text):
+    t = " ".join(re.sub(r"\bconst\b|\bvolatile\b|\bstatic\b", " ", text).split())
+    return CTYPES.get(t)
+
+
+def struct_fields(src, name):
+    m = re.search(r"struct\s+%s\s*\{(.*?)\}\s*;" % re.escape(name), src, flags=re.S)
+    if not m:
+        raise NotFound("struct " + name)
+    out = {}
+    for d in m.group(1).split(";"):
+        mm = re.fullmatch(r"\s*(.*?)[\s*]+(\w+)\s*(?:\[(\w+)\])?\s*", d, flags=re.S)
+        if mm:
+            out[mm.group(2)] = (ctype_of(mm.group(1)), mm.group(3))
+    return out
+
+
+def stream_vars(sig, by_value):
+    """variable table of a function whose first four parameters are (stream, inbuf, outbuf, buflen);
+    by_value: the last three are passed by value (crypto_aesctr_stream) instead of through pointers"""
+    if len(sig) < 4:
+        raise NotFound("stream function with fewer than four parameters")
+    d = "" if by_value else "*"
+    if [p[1] for p in sig[1:4]] != ([1, 1, 0] if by_value else [2, 2, 1]):
+        raise NotFound("pointer levels of the (inbuf, outbuf, buflen) parameters")
+    return {sig[0][2] + "->bytectr": V_BYTECTR, d + sig[3][2]: V_BUFLEN, d + sig[1][2]: V_INOFF, d + sig[2][2]: V_OUTOFF}
+
+
+def coq_ty(name, t, c=""):
+    if t is None:
+        raise NotFound("integer type of " + name)
+    return "Definition %s : cty := %s.%s\n" % (name, t, "  " + comment(c) if c else "")
+
+
+def coq_expr(name, e, c):
+    return "Definition %s : cexpr :=\n  %s.  %s\n" % (name, e, comment(c))
+
+
+def coq_stmts(name, l):
+    return "Definition %s : list cstmt :=\n  [%s].\n" % (name, ";\n   ".join(l))
+
+
+def coq_decls(name, l):
+    return "Definition %s : list (N * cty) := [%s].\n" % (name, "; ".join("(%d%%N, %s)" % x for x in l))
+
+
+def call_args(text, callee):
+    m = re.fullmatch(r"%s\s*\((.*)\)" % re.escape(callee), text.strip(), flags=re.S)
+    return top_level_args_ws(m.group(1)) if m else None
+
+
+USE, GEN = "crypto_aesctr_stream_cipherblock_use", "crypto_aesctr_stream_cipherblock_generate"
+PRE, POST = "crypto_aesctr_stream_pre_wholeblock", "crypto_aesctr_stream_post_wholeblock"
+
+
+def use_call(node, first4, vars):
+    """node = ('expr', 'crypto_aesctr_stream_cipherblock_use(a, b, c, d, NBYTES, BYTEMOD)') with the
+    first four arguments as expected -> (expr, expr) or None"""
+    if node[0] != "expr":
+        return None
+    a = call_args(node[1], USE)
+    if not a or len(a) != 6 or [squeeze(x) for x in a[:4]] != first4:
+        return None
+    return parse_expr(a[4], vars), parse_expr(a[5], vars), node[1]
+
+
+def coq_call(name, r):
+    if not r:
+        return "Definition %s : cexpr * cexpr := (EUnknown, EUnknown).\n" % name
+    return "Definition %s : cexpr * cexpr :=\n  (%s,\n   %s).  %s\n" % (name, r[0], r[1], comment(r[2]))
+
+
+def locals_of(nodes, order_texts, vars):
+    """declared scalar integer locals: name -> ctype; numbered in the order of their first
+    assignment in order_texts (statement texts in source order)"""
+    decl = {}
+    for nd in nodes:
+        if nd[0] == "decl":
+            m = re.fullmatch(r"(.*?)[\s*]+(\w+)\s*(\[[^\]]*\])?\s*", nd[1], flags=re.S)
+            if m and not m.group(3) and "*" not in nd[1] and ctype_of(m.group(1)):
+                decl[m.group(2)] = ctype_of(m.group(1))
+    ids, nxt = [], V_LOCAL0
+    for t in order_texts:
+        m = re.match(r"\s*(?:\+\+|--)?\s*(\w+)\s*(?:\+\+|--|(?:[-+*/%&|^]|<<|>>)?=(?!=))", t)
+        if m and m.group(1) in decl and m.group(1) not in vars:
+            vars[m.group(1)] = nxt
+            ids.append((nxt, decl[m.group(1)]))
+            nxt += 1
+    return ids
+
+
+def flat_texts(nodes):
+    out = []
+    for nd in nodes:
+        if nd[0] == "expr":
+            out.append(nd[1])
+        elif nd[0] == "if":
+            out += flat_texts(nd[2]) + flat_texts(nd[3])
+        elif nd[0] == "while":
+            out += flat_texts(nd[2])
+        elif nd[0] == "do":
+            out += flat_texts(nd[1])
+        elif nd[0] == "for":
+            out += [nd[1], nd[3]] + flat_texts(nd[4])
+    return out
+
+
+def arithmetic(repo):
+    shared = strip_comments(read(repo, "crypto/crypto_aesctr_shared.c"))
+    ctr = preprocess(strip_comments(read(repo, "crypto/crypto_aesctr.c")), set())
+    ni = strip_comments(read(repo, "crypto/crypto_aesctr_aesni.c"))
+    out = "From Coq Require Import NArith ZArith List.\nFrom LCP Require Import Crypto.AesCtrArith.\nImport ListNotations.\nLocal Open Scope Z_scope.\n\n"
+    out += "(* variables: 1 stream->bytectr, 2 *buflen, 3 *inbuf, 4 *outbuf (offsets), 5 nbytes, 6 bytemod,\n" \
+           "   7 stream->pblk[gen_pblk_idx]; 16.. the function's integer locals in the order of their first assignment *)\n\n"
+    fields = struct_fields(shared, "crypto_aesctr")
+    if "bytectr" not in fields or "pblk" not in fields:
+        raise NotFound("fields of struct crypto_aesctr")
+    out += coq_ty("ty_bytectr", fields["bytectr"][0], "struct crypto_aesctr: bytectr")
+    out += coq_ty("ty_pblk", fields["pblk"][0], "struct crypto_aesctr: pblk[%s]" % fields["pblk"][1])
+
+    # ---- crypto_aesctr_stream_cipherblock_generate
+    out += "\n(* ---- %s *)\n" % GEN
+    sig = func_sig(shared, GEN)
+    S = sig[0][2]
+    nodes = [x for x in parse_block(func_body(shared, GEN)) if x[0] != "decl"]
+    ok = len(nodes) == 4 and [x[0] for x in nodes] == ["expr", "expr", "if", "expr"] and not nodes[2][3] and \
+        len(nodes[2][2]) == 1 and nodes[2][2][0][0] == "expr" and \
+        squeeze(nodes[3][1]) == "crypto_aes_encrypt_block(%s->pblk,%s->buf,%s->key)" % (S, S, S)
+    a = call_args(nodes[0][1], "assert") if ok else None
+    m = re.fullmatch(r"(?:\+\+|--)?\s*%s\s*->\s*pblk\s*\[\s*(\d+)\s*\]\s*(?:\+\+|--|[-+*/%%&|^]?=.*)" % re.escape(S),
+                     nodes[1][1].strip(), flags=re.S) if ok else None
+    if ok and a and len(a) == 1 and m:
+        K = int(m.group(1))
+        pb = (S + "->pblk", K)
+        gv = {S + "->bytectr": V_BYTECTR}
+        out += coq_expr("gen_assert", parse_expr(a[0], gv, pb), nodes[0][1])
+        out += coq_def_N("gen_pblk_idx", K)
+        out += coq_stmts("gen_stmts", [parse_stmt(nodes[1][1], gv, pb)])
+        out += coq_expr("gen_wrap_cond", parse_expr(nodes[2][1], gv, pb), "if (%s)" % nodes[2][1])
+        out += coq_stmts("gen_be64", [parse_stmt(nodes[2][2][0][1], gv, pb, pblk_name=S + "->pblk")])
+    else:
+        out += "Definition gen_assert : cexpr := EUnknown.\n" + coq_def_N("gen_pblk_idx", 0) + \
+               "Definition gen_stmts : list cstmt := [SUnknown].\nDefinition gen_wrap_cond : cexpr := EUnknown.\n" \
+               "Definition gen_be64 : list cstmt := [SUnknown].\n"
+
+    # ---- crypto_aesctr_stream_cipherblock_use
+    out += "\n(* ---- %s *)\n" % USE
+    sig = func_sig(shared, USE)
+    if len(sig) != 6:
+        raise NotFound("parameters of " + USE)
+    uv = stream_vars(sig, False)
+    uv[sig[4][2]] = V_NBYTES
+    uv[sig[5][2]] = V_BYTEMOD
+    out += coq_ty("use_ty_buflen", ctype_of(sig[3][0]), "%s * %s" % (sig[3][0], sig[3][2]))
+    out += coq_ty("use_ty_nbytes", ctype_of(sig[4][0]) if sig[4][1] == 0 else None, "%s %s" % (sig[4][0], sig[4][2]))
+    out += coq_ty("use_ty_bytemod", ctype_of(sig[5][0]) if sig[5][1] == 0 else None, "%s %s" % (sig[5][0], sig[5][2]))
+    nodes = [x for x in parse_block(func_body(shared, USE)) if x[0] != "decl"]
+    # the byte loop (hand-modelled: out[i] = in[i] ^ buf[bytemod + i], i < nbytes) must come first
+    if nodes and nodes[0][0] == "for" and all(x[0] == "expr" for x in nodes[1:]):
+        out += "(* hand-modelled: for (%s; %s; %s) %s *)\n" % (nodes[0][1], nodes[0][2], nodes[0][3],
+                                                              "; ".join(flat_texts(nodes[0][4])).replace("(*", "( *").replace("*)", "* )"))
+        out += coq_stmts("use_stmts", [parse_stmt(x[1], uv) for x in nodes[1:]])
+    else:
+        out += "Definition use_stmts : list cstmt := [SUnknown].\n"
+
+    # ---- crypto_aesctr_stream_pre_wholeblock
+    out += "\n(* ---- %s *)\n" % PRE
+    sig = func_sig(shared, PRE)
+    pv = stream_vars(sig, False)
+    first4 = [p[2] for p in sig[:4]]
+    out += coq_ty("pre_ty_buflen", ctype_of(sig[3][0]), "%s * %s" % (sig[3][0], sig[3][2]))
+    allnodes = parse_block(func_body(shared, PRE))
+    nodes = [x for x in allnodes if x[0] != "decl"]
+    decls = locals_of(allnodes, flat_texts(nodes), pv)
+    out += coq_decls("pre_decls", decls)
+    # bytemod = E; if (C1) { if (C2) { use(.., A, B); return (1); } use(.., A', B'); } return (0);
+    ok = len(nodes) == 3 and [x[0] for x in nodes] == ["expr", "if", "return"] and strip_parens(nodes[2][1]) == "0" and \
+        not nodes[1][3] and len(nodes[1][2]) == 2 and nodes[1][2][0][0] == "if" and not nodes[1][2][0][3] and \
+        len(nodes[1][2][0][2]) == 2 and nodes[1][2][0][2][1][0] == "return" and strip_parens(nodes[1][2][0][2][1][1]) == "1"
+    c1 = use_call(nodes[1][2][0][2][0], first4, pv) if ok else None
+    c2 = use_call(nodes[1][2][1], first4, pv) if ok else None
+    if ok and c1 and c2:
+        out += coq_stmts("pre_stmts", [parse_stmt(nodes[0][1], pv)])
+        out += coq_expr("pre_cond1", parse_expr(nodes[1][1], pv), "if (%s)" % nodes[1][1])
+        out += coq_expr("pre_cond2", parse_expr(nodes[1][2][0][1], pv), "if (%s)" % nodes[1][2][0][1])
+        out += coq_call("pre_call1", c1) + coq_call("pre_call2", c2)
+    else:
+        out += "Definition pre_stmts : list cstmt := [SUnknown].\nDefinition pre_cond1 : cexpr := EUnknown.\n" \
+               "Definition pre_cond2 : cexpr := EUnknown.\n" + coq_call("pre_call1", None) + coq_call("pre_call2", None)
+
+    # ---- crypto_aesctr_stream_post_wholeblock
+    out += "\n(* ---- %s *)\n" % POST
+    sig = func_sig(shared, POST)
+    qv = stream_vars(sig, False)
+    first4 = [p[2] for p in sig[:4]]
+    out += coq_ty("post_ty_buflen", ctype_of(sig[3][0]), "%s * %s" % (sig[3][0], sig[3][2]))
+    nodes = [x for x in parse_block(func_body(shared, POST)) if x[0] != "decl"]
+    ok = len(nodes) == 1 and nodes[0][0] == "if" and not nodes[0][3] and len(nodes[0][2]) == 2 and \
+        nodes[0][2][0][0] == "expr" and squeeze(nodes[0][2][0][1]) == "%s(%s)" % (GEN, sig[0][2])
+    c = use_call(nodes[0][2][1], first4, qv) if ok else None
+    if ok and c:
+        out += coq_expr("post_cond", parse_expr(nodes[0][1], qv), "if (%s)" % nodes[0][1])
+        out += coq_call("post_call", c)
+    else:
+        out += "Definition post_cond : cexpr := EUnknown.\n" + coq_call("post_call", None)
+
+    # ---- crypto_aesctr_stream (no CPU feature macro: the portable loop is the whole function)
+    out += "\n(* ---- crypto_aesctr_stream, portable loop *)\n"
+    sig = func_sig(ctr, "crypto_aesctr_stream")
+    sv = stream_vars(sig, True)
+    st, ib, ob, bl = [p[2] for p in sig[:4]]
+    amp = [st, "&" + ib, "&" + ob, "&" + bl]
+    out += coq_ty("sw_ty_buflen", ctype_of(sig[3][0]), "%s %s" % (sig[3][0], sig[3][2]))
+    nodes = [x for x in parse_block(func_body(ctr, "crypto_aesctr_stream")) if x[0] != "decl"]
+    # if (pre(stream, &inbuf, &outbuf, &buflen)) return; while (C) { generate(stream); use(.., A, B); } post(..);
+    ok = len(nodes) == 3 and nodes[0][0] == "if" and squeeze(nodes[0][1]) == "%s(%s)" % (PRE, ",".join(amp)) and \
+        len(nodes[0][2]) == 1 and nodes[0][2][0] == ("return", "") and not nodes[0][3] and \
+        nodes[1][0] == "while" and len(nodes[1][2]) == 2 and nodes[1][2][0][0] == "expr" and \
+        squeeze(nodes[1][2][0][1]) == "%s(%s)" % (GEN, st) and \
+        nodes[2][0] == "expr" and squeeze(nodes[2][1]) == "%s(%s)" % (POST, ",".join(amp))
+    c = use_call(nodes[1][2][1], amp, sv) if ok else None
+    if ok and c:
+        out += coq_expr("sw_cond", parse_expr(nodes[1][1], sv), "while (%s)" % nodes[1][1])
+        out += coq_call("sw_call", c)
+    else:
+        out += "Definition sw_cond : cexpr := EUnknown.\n" + coq_call("sw_call", None)
+
+    # ---- crypto_aesctr_aesni_stream
+    out += "\n(* ---- crypto_aesctr_aesni_stream *)\n"
+    WB = "crypto_aesctr_aesni_stream_wholeblocks"
+    sig = func_sig(ni, "crypto_aesctr_aesni_stream")
+    nv = stream_vars(sig, True)
+    st, ib, ob, bl = [p[2] for p in sig[:4]]
+    amp = [st, "&" + ib, "&" + ob, "&" + bl]
+    out += coq_ty("ni_ty_buflen", ctype_of(sig[3][0]), "%s %s" % (sig[3][0], sig[3][2]))
+    nodes = [x for x in parse_block(func_body(ni, "crypto_aesctr_aesni_stream")) if x[0] != "decl"]
+    ok = len(nodes) == 3 and nodes[0][0] == "if" and squeeze(nodes[0][1]) == "%s(%s)" % (PRE, ",".join(amp)) and \
+        len(nodes[0][2]) == 1 and nodes[0][2][0] == ("return", "") and not nodes[0][3] and \
+        nodes[1][0] == "if" and not nodes[1][3] and len(nodes[1][2]) == 1 and nodes[1][2][0][0] == "expr" and \
+        squeeze(nodes[1][2][0][1]) == "%s(%s)" % (WB, ",".join(amp)) and \
+        nodes[2][0] == "expr" and squeeze(nodes[2][1]) == "%s(%s)" % (POST, ",".join(amp))
+    out += coq_expr("ni_cond", parse_expr(nodes[1][1], nv) if ok else "EUnknown", "if (%s)" % (nodes[1][1] if ok else "?"))
+
+    # ---- crypto_aesctr_aesni_stream_wholeblocks
+    out += "\n(* ---- %s *)\n" % WB
+    sig = func_sig(ni, WB)
+    wv = stream_vars(sig, False)
+    S = sig[0][2]
+    out += coq_ty("wb_ty_buflen", ctype_of(sig[3][0]), "%s * %s" % (sig[3][0], sig[3][2]))
+    allnodes = parse_block(func_body(ni, WB))
+    nodes = [x for x in allnodes if x[0] != "decl"]
+    arrs = [re.fullmatch(r"uint8_t\s+(\w+)\s*\[\s*8\s*\]", x[1].strip()) for x in allnodes if x[0] == "decl"]
+    arrs = [m.group(1) for m in arrs if m]
+    arr = arrs[0] if len(arrs) == 1 else None
+    out += coq_decls("wb_decls", locals_of(allnodes, flat_texts(nodes), wv))
+    loops = [k for k, x in enumerate(nodes) if x[0] in ("do", "while", "for")]
+
+    def stmts(nl):
+        return [parse_stmt(x[1], wv, arr=arr, pblk_name=S + "->pblk") if x[0] == "expr" else "SUnknown " + comment(str(x[0]))
+                for x in nl]
+    if len(loops) == 1 and nodes[loops[0]][0] == "do":
+        k = loops[0]
+        out += coq_stmts("wb_prologue", stmts(nodes[:k]))
+        out += coq_stmts("wb_body", stmts(nodes[k][1]))
+        out += coq_expr("wb_cond", parse_expr(nodes[k][2], wv), "do { ... } while (%s)" % nodes[k][2])
+        out += coq_stmts("wb_epilogue", stmts(nodes[k + 1:]))
+    else:
+        out += "Definition wb_prologue : list cstmt := [SUnknown].\nDefinition wb_body : list cstmt := [SUnknown].\n" \
+               "Definition wb_cond : cexpr := EUnknown.\nDefinition wb_epilogue : list cstmt := [SUnknown].\n"
+    return out
+
+
 def extract(repo):
     ni = strip_comments(read(repo, "crypto/crypto_aes_aesni.c"))
     aes = strip_comments(read(repo, "crypto/crypto_aes.c"))
@@ -500,4 +1124,4 @@ def extract(repo):
     out += coq_calls("free_calls_key_sw", wipe_calls(kf))
     out += "Definition alloc_expr_ctr : list N :=\n  %s.\n" % coq_str(malloc_expr(func_body(ctr, "crypto_aesctr_alloc")))
     out += coq_calls("free_calls_ctr", wipe_calls(func_body(ctr, "crypto_aesctr_free")))
-    return {"Repo_aes.v": out, "Repo_aes_sel.v": selection(repo)}
+    return {"Repo_aes.v": out, "Repo_aes_sel.v": selection(repo), "Repo_aes_arith.v": arithmetic(repo)}
